@@ -492,7 +492,10 @@ class ContentSecurityPolicySourceNonce(ParsableBase, Serializable):
 
         parser.parse_string_until_separator_or_end('value', ' ')
 
-        return cls(**parser), parser.parsed_length
+        try:
+            return cls(**parser), parser.parsed_length
+        except TypeError as e:
+            six.raise_from(InvalidValue(parser['value'], cls, 'value'), e)
 
     def compose(self):
         composer = ComposerText()
